@@ -3,6 +3,9 @@ package base
 // Metric key sets (C07 robustness, C06/C19 attribution).
 
 import (
+	"strings"
+	"unicode/utf8"
+
 	"github.com/relex/slog-agent/util"
 	"github.com/relex/slog-agent/zz_verif/fakes"
 	"github.com/relex/slog-agent/zz_verif/sym"
@@ -110,6 +113,36 @@ func VerifC19_MetricKeySetAttributionLongValues() {
 		sym.Reach("same")
 	} else {
 		sym.Reach("different")
+	}
+}
+
+// VerifC19_LabelsOfArbitraryByteValues: metric-key values of arbitrary bytes (not
+// only valid UTF-8): the record is counted under the label values of its own
+// key fields, each made valid UTF-8 on its own (invalid sequences replaced by
+// U+FFFD) - a broken value in one key must not change the label of another key.
+//
+//verif:reach all-valid some-invalid
+func VerifC19_LabelsOfArbitraryByteValues() {
+	value := func(name string, max int) string {
+		n := sym.Choice(name+"Len", max+1)
+		return sym.String(name, n, n)
+	}
+	// quick: host of 0..1 and app of 0..2 arbitrary bytes; thorough: both 0..2
+	h, a := value("host", 1+sym.Tier()), value("app", 2)
+	m := fakes.NewMetrics()
+	pc := verifNewProcessCounter(m)
+	rec := verifKeySchema.NewTestRecord1(LogFields{h, a, "m"})
+	rec.RawLength = 10
+	ic := pc.SelectMetricKeySet(rec)
+	ic.CountRecordPass(rec)
+	pc.UpdateMetrics()
+	wh, wa := strings.ToValidUTF8(h, "\uFFFD"), strings.ToValidUTF8(a, "\uFFFD")
+	sym.Assert(m.CounterValue("passed_records_total", wh, wa) == 1 && m.CounterValue("passed_record_bytes_total", wh, wa) == 10,
+		"the record is counted under its own key values, each made valid UTF-8 on its own")
+	if utf8.ValidString(h) && utf8.ValidString(a) {
+		sym.Reach("all-valid")
+	} else {
+		sym.Reach("some-invalid")
 	}
 }
 
